@@ -460,6 +460,124 @@ fn retarget_race_case(seed: u64, idx: u64) -> CaseOut {
     co
 }
 
+
+/// Resize lane: the terminal changes its width between two draws (no concurrency). The first `{wide_bar}`
+/// line laid out after the change - by a standalone bar or by a MultiProgress member - must already fit the
+/// new width exactly. The terminal records the width it had when each line arrived.
+#[derive(Clone, Debug)]
+struct ResizeTerm {
+    width: std::sync::Arc<std::sync::atomic::AtomicU64>,
+    lines: std::sync::Arc<std::sync::Mutex<Vec<(u16, String)>>>,
+}
+
+impl indicatif::TermLike for ResizeTerm {
+    fn width(&self) -> u16 {
+        self.width.load(std::sync::atomic::Ordering::SeqCst) as u16
+    }
+    fn height(&self) -> u16 {
+        40
+    }
+    fn move_cursor_up(&self, _: usize) -> std::io::Result<()> {
+        Ok(())
+    }
+    fn move_cursor_down(&self, _: usize) -> std::io::Result<()> {
+        Ok(())
+    }
+    fn move_cursor_right(&self, _: usize) -> std::io::Result<()> {
+        Ok(())
+    }
+    fn move_cursor_left(&self, _: usize) -> std::io::Result<()> {
+        Ok(())
+    }
+    fn write_line(&self, s: &str) -> std::io::Result<()> {
+        self.write_str(s)
+    }
+    fn write_str(&self, s: &str) -> std::io::Result<()> {
+        self.lines.lock().unwrap().push((self.width(), s.to_string()));
+        Ok(())
+    }
+    fn clear_line(&self) -> std::io::Result<()> {
+        Ok(())
+    }
+    fn flush(&self) -> std::io::Result<()> {
+        Ok(())
+    }
+}
+
+fn resize_case(seed: u64, idx: u64) -> CaseOut {
+    use std::sync::atomic::Ordering::SeqCst;
+    let mut rng = Rng::derive(seed, 1331, idx);
+    let replay = format!("z{seed}:{idx}");
+    let mode = rng.below(3); // 0 standalone, 1 only member, 2 member with a sibling drawn in between
+    let n = rng.range(2, 5) as usize;
+    let widths: Vec<u16> = (0..=n).map(|_| rng.range(12, 140) as u16).collect();
+    let ops: Vec<u64> = (0..n).map(|_| rng.below(4)).collect();
+    let witness = J::obj().with("mode", ["standalone", "member", "member+sibling"][mode as usize]).with("widths", J::from(widths.iter().map(|w| *w as u64).collect::<Vec<_>>())).with("ops", J::from(ops.clone()));
+    let feats = vec!["wide_bar".to_string(), "resize".to_string(), if mode == 0 { "standalone".to_string() } else { "multi".to_string() }];
+    let mut co = CaseOut::held(fnv1a(format!("{mode}{widths:?}{ops:?}").as_bytes()), true);
+    let term = ResizeTerm { width: std::sync::Arc::new(std::sync::atomic::AtomicU64::new(widths[0] as u64)), lines: Default::default() };
+    let style = ProgressStyle::with_template("{wide_bar} A{pos}/{len}").unwrap().progress_chars("#>-");
+    let target = || indicatif::ProgressDrawTarget::term_like_with_hz(Box::new(term.clone()), 255);
+    let mp = (mode != 0).then(|| indicatif::MultiProgress::with_draw_target(target()));
+    let pb = match &mp {
+        Some(mp) => mp.add(indicatif::ProgressBar::with_draw_target(Some(10), indicatif::ProgressDrawTarget::hidden()).with_style(style)),
+        None => indicatif::ProgressBar::with_draw_target(Some(10), target()).with_style(style),
+    };
+    let sib = match (&mp, mode) {
+        (Some(mp), 2) => Some(mp.add(indicatif::ProgressBar::with_draw_target(Some(10), indicatif::ProgressDrawTarget::hidden()).with_style(ProgressStyle::with_template("B{pos}").unwrap()))),
+        _ => None,
+    };
+    let res = catch_unwind(AssertUnwindSafe(|| {
+        pb.set_position(5);
+        pb.tick();
+        let mut checked = 0u64;
+        for (i, op) in ops.iter().enumerate() {
+            term.width.store(widths[i + 1] as u64, SeqCst);
+            term.lines.lock().unwrap().clear();
+            match op {
+                0 => pb.tick(),
+                1 => pb.set_message("x"),
+                2 => pb.set_length(11 + i as u64),
+                _ => {
+                    if let Some(s) = &sib {
+                        // the sibling's draw repaints our stored line (laid out for the old width: nothing to
+                        // check), then we draw ourselves
+                        s.tick();
+                        term.lines.lock().unwrap().clear();
+                    }
+                    pb.tick()
+                }
+            }
+            let lines = term.lines.lock().unwrap().clone();
+            for (w, t) in lines.iter().filter(|(_, t)| t.contains(" A")) {
+                checked += 1;
+                let cols = cols_of(t.trim_end_matches(' '));
+                let full = cols_of(t);
+                if full > *w as usize || cols != *w as usize {
+                    return Err((format!("after the terminal went from {} to {} columns, the first line drawn is {cols} columns wide: {t:?}", widths[i], w), i));
+                }
+            }
+        }
+        pb.abandon();
+        if let Some(s) = &sib {
+            s.abandon();
+        }
+        Ok(checked)
+    }));
+    match res {
+        Err(p) => {
+            std::mem::forget(pb);
+            co.verdict = viol("panic", feats, format!("panicked: {}", crate::world::panic_message(&p)), witness, replay)
+        }
+        Ok(Err((d, _))) => co.verdict = viol("wide-bar-stale-terminal-width", feats, d, witness, replay),
+        Ok(Ok(n)) => {
+            co.nontrivial = n > 0;
+            co.count("lines_checked_after_resize", n);
+        }
+    }
+    co
+}
+
 pub fn run(cfg: &RunCfg) -> PropResult {
     console::set_colors_enabled(false);
     let sets: Vec<usize> = if cfg.thorough { (0..CHARSETS.len()).collect() } else { vec![1, 4, 11] };
@@ -476,7 +594,7 @@ pub fn run(cfg: &RunCfg) -> PropResult {
             let mut it = case[1..].split(':');
             let seed: u64 = it.next().and_then(|s| s.parse().ok()).unwrap_or(cfg.seed);
             let idx: u64 = it.next().and_then(|s| s.parse().ok()).unwrap_or(0);
-            r.add(idx, if case.starts_with('r') { retarget_race_case(seed, idx) } else if wide { wide_case(seed, idx) } else { sampled_case(seed, idx) });
+            r.add(idx, if case.starts_with('z') { resize_case(seed, idx) } else if case.starts_with('r') { retarget_race_case(seed, idx) } else if wide { wide_case(seed, idx) } else { sampled_case(seed, idx) });
         }
         r
     } else {
@@ -492,6 +610,8 @@ pub fn run(cfg: &RunCfg) -> PropResult {
         r.merge(crate::report::run_parallel_tagged('w', nw, workers(), |i| wide_case(cfg.seed, i)));
         let nr = if cfg.thorough { 60_000 } else { 1_500 };
         r.merge(crate::report::run_parallel_tagged('r', nr, workers(), |i| retarget_race_case(cfg.seed, i)));
+        let nz = if cfg.thorough { 400_000 } else { 8_000 };
+        r.merge(crate::report::run_parallel_tagged('z', nz, workers(), |i| resize_case(cfg.seed, i)));
         r.extra.insert("exhaustive_slice".into(), J::from(format!("bar widths 0..=64 x lengths 0..=64 x positions 0..=len+1 x {} character sets", sets.len())));
         r
     };
